@@ -169,3 +169,57 @@ func TestMapSeqVisitsAll(t *testing.T) {
 		}
 	}
 }
+
+// Goroutines started outside any run (a package's init function) run as tasks of the
+// ambient world; a later Run starts cleanly.
+func TestAmbientWorld(t *testing.T) {
+	if W != nil {
+		t.Fatalf("a world is active")
+	}
+	c := NewChan[int]()
+	sum := 0
+	for i := 1; i <= 4; i++ {
+		i := i
+		Go("worker", func() { c.Send(i) })
+	}
+	for i := 0; i < 4; i++ {
+		sum += c.Recv()
+	}
+	if sum != 10 {
+		t.Fatalf("sum %d", sum)
+	}
+	if W == nil || !W.ambient {
+		t.Fatalf("no ambient world")
+	}
+	res := run(1, func() {})
+	if res.Outcome != Completed {
+		t.Fatalf("outcome %v", res.Outcome)
+	}
+	if W != nil {
+		t.Fatalf("world left behind")
+	}
+}
+
+func TestNumCPUPerParty(t *testing.T) {
+	seen := map[int]bool{}
+	for seed := uint64(0); seed < 200; seed++ {
+		var a1, a2, b int
+		run(seed, func() {
+			done := NewChan[int](2)
+			GoParty("A", "x", func() { a1 = NumCPU(); a2 = NumCPU(); done.Send(0) })
+			GoParty("B", "x", func() { b = NumCPU(); done.Send(0) })
+			done.Recv()
+			done.Recv()
+		})
+		if a1 != a2 || a1 == 0 || b == 0 {
+			t.Fatalf("seed %d: %d %d %d", seed, a1, a2, b)
+		}
+		seen[a1] = true
+		if a1 != b {
+			seen[-1] = true
+		}
+	}
+	if len(seen) < 8 || !seen[-1] || !seen[1] {
+		t.Fatalf("CPU counts seen: %v", seen)
+	}
+}
